@@ -58,3 +58,12 @@ pub open spec fn lin_concat(front: bool, a: Access, now: u64, k: Seq<u8>, rec: R
         None => r is Err && r->Err_0 == CacheError::NotFound && same_observations(a.pre, a.post, now),
     }
 }
+pub open spec fn lin_delta(incr: bool, a: Access, now: u64, k: Seq<u8>, delta: u64, initial: u64, no_create: bool, ok: bool, value: u64) -> bool {
+    match lookup(a.pre, now, k) {
+        Some(i) => numeric_u64(i.value) ==> (ok ==> {
+            let nv = delta_apply(incr, dec_val(i.value) as u64, delta);
+            value == nv && lookup(a.post, now, k) is Some && lookup(a.post, now, k)->Some_0.value =~= dec_text(nv as nat)
+        }),
+        None => if no_create { !ok && same_observations(a.pre, a.post, now) } else { ok ==> value == initial && lookup(a.post, now, k) is Some },
+    }
+}
